@@ -5,3 +5,5 @@ open XotModel.Props
 #print axioms C15_frame
 #print axioms C15_idem_false
 #print axioms C15_serialises_false
+#print axioms C15_recursive_form
+#print axioms C15_serialises_partial
